@@ -24,6 +24,8 @@ run_directed = directed.run
 
 
 def cases(tier, rng):
+    for c in directed.used_before_override_cases():
+        yield "directed-used-before-override", c
     for c in directed.generator_functions_cases():
         yield "directed-generator-functions", c
     for c in directed.awaitable_kinds_cases():
